@@ -175,11 +175,12 @@ class Store(Job):
 
         def passes(sid, tname):
             inc, exc = self.include, self.exclude
+            fname = "func:aggregate" if tname == "rollup" else "func:" + tname      # the roll-up's function is qartod.aggregate
             ok = True
             if inc is not None:
-                ok = ok and (sid in inc or tname in inc or ("func:" + tname) in inc)
+                ok = ok and (sid in inc or tname in inc or fname in inc)
             if exc is not None:
-                ok = ok and not (sid in exc or tname in exc or ("func:" + tname) in exc)
+                ok = ok and not (sid in exc or tname in exc or fname in exc)
             return ok
         want = []
         if self.write_axes and n > 0:
@@ -313,6 +314,9 @@ def jobs(tier):
     out.append(Store(n, ["temp"], ["spike_test", "gross_range_test"], False, True, include=["rollup"], aggregate=True))
     out.append(Store(n, ["temp", "a b"], ["spike_test"], True, True, exclude=["temp", "a b"]))
     out.append(Store(n, ["temp"], ["spike_test", "gross_range_test"], False, True, include=["no_such_test"]))
+    # the roll-up selected / dropped through its function (qartod.aggregate), its test name is "rollup"
+    out.append(Store(n, ["temp"], ["spike_test", "gross_range_test"], False, False, include=["func:aggregate", "spike_test"], aggregate=True))
+    out.append(Store(n, ["temp"], ["spike_test"], False, True, exclude=["func:aggregate"], aggregate=True))
     out.append(Store(3, ["temp"], ["spike_test", "gross_range_test"], True, True, partial=True))
     out.append(Collision(2 if tier == "quick" else 4))
     out.append(Store(2, ["a b", "a_b"], ["spike_test"], False, False))
